@@ -11,5 +11,18 @@ pub mod slot_lock;
 pub mod track;
 pub mod try_chunks;
 pub mod utils;
+#[cfg(feature = "verif")]
+pub mod verif;
 pub mod version;
 pub mod yield_now;
+
+/// Expands to a call of the verification hook with the `verif` feature, to nothing otherwise.
+#[macro_export]
+macro_rules! verif_point {
+    ($name:expr) => {
+        #[cfg(feature = "verif")]
+        {
+            $crate::common::verif::point($name);
+        }
+    };
+}
